@@ -445,6 +445,8 @@ class ExprMixin:
             return Or(*[Or(self.is_same(x, el), self.py_eq(x, el, p)) for el in cont.z]) if cont.z else z3.BoolVal(False)
         if cont.tag == "dref":
             return p.heap.ddom(cont.z, self.to_sort(x, L.Val))
+        if cont.tag == "vset":
+            return cont.z(self.to_sort(x, L.Val))
         if cont.tag == "lref" and x.tag == "ref":
             i = L.fresh("ci", L.I)
             return z3.Exists([i], And(0 <= i, i < p.heap.llen(cont.z), Or(p.heap.litem(cont.z, i) == x.z, L.v_eq(p.heap._data(p.heap.litem(cont.z, i)), p.heap._data(x.z)))))
@@ -588,6 +590,49 @@ class ExprMixin:
 
     def ev_GeneratorExp(self, e, p, R):
         return self.comprehension(e, p, R)
+
+    def ev_SetComp(self, e, p, R):
+        """{f(x) for x in xs if cond(x)} over a list of nodes: a mathematical set of values, represented
+        by its membership formula  v in S  <=>  exists t. 0 <= t < len(xs) and cond(xs[t]) and f(xs[t]) == v."""
+        if len(e.generators) != 1 or not isinstance(e.generators[0].target, ast.Name):
+            raise Unsupported("set comprehension shape")
+        g = e.generators[0]
+        outs = []
+        for q, src in self.ev(g.iter, p, R):
+            if src.tag != "lref":
+                raise Unsupported(f"set comprehension over {src.tag}")
+            self.oblige(q, f"L{e.lineno}/iterate-None", src.z != L.LNONE, kind="safety")
+            q.assume(src.z != L.LNONE)
+            h = q.heap
+            var = g.target.id
+            env0 = dict(q.env)
+
+            def member(v, h=h, q=q, src=src, var=var, env0=env0):
+                t = L.fresh("t", L.I)
+                x = h.litem(src.z, t)
+                qq = q.fork()
+                qq.env = dict(env0)
+                qq.env[var] = RefV(x, "Node")
+                saved_pb, saved_n = getattr(self, "pure_bool", False), len(self.obligations)
+                self.pure_bool = True
+                try:
+                    cond = z3.BoolVal(True)
+                    for c in g.ifs:
+                        r = self.ev(c, qq, [])
+                        if len(r) != 1:
+                            raise Unsupported("set comprehension condition forks")
+                        cond = And(cond, self.truthy(r[0][1], r[0][0]))
+                    r = self.ev(e.elt, qq, [])
+                    if len(r) != 1:
+                        raise Unsupported("set comprehension element forks")
+                    elt = self.to_sort(r[0][1], L.Val)
+                finally:
+                    self.pure_bool = saved_pb
+                    del self.obligations[saved_n:]
+                return z3.Exists([t], And(0 <= t, t < h.llen(src.z), cond, elt == v))
+
+            outs.append((q, SV("vset", member)))
+        return outs
 
     def ev_Starred(self, e, p, R):
         raise Unsupported("starred expression")
